@@ -227,15 +227,21 @@ structure GoodStop (W : World) (d : Dbg) (pc : Addr) : Prop where
   page : W.mmapRes < W64 - 4095
   freshZero : ∀ a, inPage W.mmapRes a = true → d.t.mem a = 0
 
+/-- the code the callee executes (`W.reach`) is, at the callee's first instruction, the original code (`W.orig`): in
+particular the callee does not pass through the stop pc, where the debugger's `jmp *%rax` patch is still in place
+(`C16_callee_runs_original_code_counterexample`) -/
+def CleanCode (W : World) (pc fnAddr : Nat) (args : List Nat) (d : Dbg) : Prop :=
+  runsPatched W (preEntryT W pc fnAddr args d.t) = false
+
 /-- `call f a1..an` enters f EXACTLY ONCE (the entry log grows by one entry, whose target is f), with argument i in the
 i-th System V register, and the CPU never executes anything but the trampoline and f -/
 theorem C16_called_once_with_args (W : World) (d : Dbg) (pc fnAddr : Nat) (args : List Nat)
-    (hs : GoodStop W d pc) (hc : CalleeFrame W) (hlen : args.length ≤ 6) :
+    (hs : GoodStop W d pc) (hc : CalleeFrame W) (hclean : CleanCode W pc fnAddr args d) (hlen : args.length ≤ 6) :
     (callFnRaw W pc fnAddr args d).1 = .ok () ∧
     ∃ regsAtEntry, (callFnRaw W pc fnAddr args d).2.t.entered = d.t.entered ++ [(fnAddr, regsAtEntry)]
       ∧ regsAtEntry.take args.length = args
       ∧ (callFnRaw W pc fnAddr args d).2.t.wild = d.t.wild := by
-  obtain ⟨h1, _, h3⟩ := callFnRaw_ok hs.noFail pc fnAddr args d hs.bytes hs.atPc hs.page hc.pages
+  obtain ⟨h1, _, h3⟩ := callFnRaw_ok hs.noFail pc fnAddr args d hs.bytes hs.atPc hs.page hc.pages hclean
   refine ⟨h1, argRegs.map (callRegs W fnAddr args d.t), ?_, ?_, ?_⟩
   · rw [h3]; exact finalT_entered W pc fnAddr args d.t hc.entered
   · have : argRegs.map (callRegs W fnAddr args d.t) = argRegs.map (prepare d.t.regs args) := by
@@ -250,7 +256,7 @@ theorem C16_called_once_with_args (W : World) (d : Dbg) (pc fnAddr : Nat) (args 
 pages is what it was and the page reads as fresh), the breakpoint table is untouched, the code word at pc is what it was,
 and every other byte is exactly what the callee left (`entryT` = the thread at the callee's first instruction). -/
 theorem C16_state_restored (W : World) (d : Dbg) (pc fnAddr : Nat) (args : List Nat)
-    (hs : GoodStop W d pc) (hc : CalleeFrame W) :
+    (hs : GoodStop W d pc) (hc : CalleeFrame W) (hclean : CleanCode W pc fnAddr args d) :
     (callFnRaw W pc fnAddr args d).1 = .ok ()
     ∧ (callFnRaw W pc fnAddr args d).2.t.regs = d.t.regs
     ∧ (callFnRaw W pc fnAddr args d).2.t.pages = d.t.pages
@@ -260,7 +266,7 @@ theorem C16_state_restored (W : World) (d : Dbg) (pc fnAddr : Nat) (args : List 
     ∧ (∀ a, inPage W.mmapRes a = true → (callFnRaw W pc fnAddr args d).2.t.mem a = d.t.mem a)
     ∧ (∀ a, ¬ (pc ≤ a ∧ a < pc + 8) → inPage W.mmapRes a = false →
          (callFnRaw W pc fnAddr args d).2.t.mem a = (W.callee (entryT W pc fnAddr args d.t)).mem a) := by
-  obtain ⟨h1, h2, h3⟩ := callFnRaw_ok hs.noFail pc fnAddr args d hs.bytes hs.atPc hs.page hc.pages
+  obtain ⟨h1, h2, h3⟩ := callFnRaw_ok hs.noFail pc fnAddr args d hs.bytes hs.atPc hs.page hc.pages hclean
   refine ⟨h1, ?_, ?_, h2, ?_, ?_, ?_, ?_⟩
   · rw [h3]; rfl
   · rw [h3]; exact finalT_pages W pc fnAddr args d.t hc.pages
@@ -288,7 +294,7 @@ theorem C16_memory_at_entry (W : World) (pc fnAddr : Nat) (args : List Nat) (t0 
     simp at hp'
     have := hp' h1
     omega
-  simp only [entryT, atEntry, preCall, postJump, preJump, postMmap, preMmap, ccxOf, hrsp]
+  simp only [entryT, preEntryT, atEntry, preCall, postJump, preJump, postMmap, preMmap, ccxOf, hrsp]
   rw [poke_other _ _ _ _ hslot, poke_other _ _ _ _ hpg, poke_other _ _ _ _ hw]
   simp only [hp]
   exact poke_other _ _ _ _ hw
@@ -296,11 +302,11 @@ theorem C16_memory_at_entry (W : World) (pc fnAddr : Nat) (args : List Nat) (t0 
 /-- THE PROPERTY for code and data: a byte that the callee does not write, outside the 8 bytes right below the stack
 pointer, is after the call what it was before — in particular every byte of code -/
 theorem C16_text_restored (W : World) (d : Dbg) (pc fnAddr : Nat) (args : List Nat)
-    (hs : GoodStop W d pc) (hc : CalleeFrame W) (a : Nat)
+    (hs : GoodStop W d pc) (hc : CalleeFrame W) (hclean : CleanCode W pc fnAddr args d) (a : Nat)
     (hcallee : ∀ t, (W.callee t).mem a = t.mem a)
     (hslot : ¬ (d.t.regs Rsp - 8 ≤ a ∧ a < d.t.regs Rsp - 8 + 8)) :
     (callFnRaw W pc fnAddr args d).2.t.mem a = d.t.mem a := by
-  obtain ⟨_, _, _, _, _, m1, m2, m3⟩ := C16_state_restored W d pc fnAddr args hs hc
+  obtain ⟨_, _, _, _, _, m1, m2, m3⟩ := C16_state_restored W d pc fnAddr args hs hc hclean
   by_cases hw : pc ≤ a ∧ a < pc + 8
   · exact m1 a hw
   · by_cases hp : inPage W.mmapRes a = true
@@ -320,20 +326,20 @@ theorem wFrame : CalleeFrame (noFaults 8192 id) := ⟨fun _ => rfl, fun _ => rfl
 
 /-- non-vacuity of `C16_called_once_with_args` / `C16_state_restored`: the hypotheses are satisfiable, the run is the full one -/
 example : (callFnRaw (noFaults 8192 id) 100 500 [7, 9] wDbg).2.t.entered.length = 1 := by
-  obtain ⟨_, r, h, _⟩ := C16_called_once_with_args _ _ 100 500 [7, 9] wGood wFrame (by decide)
+  obtain ⟨_, r, h, _⟩ := C16_called_once_with_args _ _ 100 500 [7, 9] wGood wFrame rfl (by decide)
   rw [h]; rfl
 
 /-- the full statement about memory: a call of a function that writes NOTHING leaves every byte as it was -/
 def C16_stack_untouched_full : Prop :=
-  ∀ (W : World) (d : Dbg) (pc fnAddr : Nat) (args : List Nat), GoodStop W d pc → CalleeFrame W →
+  ∀ (W : World) (d : Dbg) (pc fnAddr : Nat) (args : List Nat), GoodStop W d pc → CalleeFrame W → CleanCode W pc fnAddr args d →
     (∀ t, (W.callee t).mem = t.mem) → ∀ a, (callFnRaw W pc fnAddr args d).2.t.mem a = d.t.mem a
 
 /-- FALSE of the code: the trampoline's `call` pushes its return address at rsp-8 — inside the red zone a leaf function
 may keep live data in (and the callee's frame grows below it): byte 992 = rsp-8 holds 0x02 (low byte of page+2) afterwards -/
 theorem C16_stack_untouched_counterexample : ¬ C16_stack_untouched_full := by
   intro h
-  have h1 := h (noFaults 8192 id) wDbg 100 500 [] wGood wFrame (fun _ => rfl) 992
-  obtain ⟨_, _, _, _, _, _, _, m3⟩ := C16_state_restored (noFaults 8192 id) wDbg 100 500 [] wGood wFrame
+  have h1 := h (noFaults 8192 id) wDbg 100 500 [] wGood wFrame rfl (fun _ => rfl) 992
+  obtain ⟨_, _, _, _, _, _, _, m3⟩ := C16_state_restored (noFaults 8192 id) wDbg 100 500 [] wGood wFrame rfl
   rw [m3 992 (by omega) (by decide)] at h1
   revert h1
   decide
@@ -347,12 +353,13 @@ def C16_no_leak_full : Prop :=
 
 /-- it holds when no request fails … -/
 theorem C16_no_leak_partial (W : World) (d : Dbg) (pc fnAddr : Nat) (args : List Nat)
-    (hs : GoodStop W d pc) (hc : CalleeFrame W) : (callFnRaw W pc fnAddr args d).2.t.pages = d.t.pages :=
-  (C16_state_restored W d pc fnAddr args hs hc).2.2.1
+    (hs : GoodStop W d pc) (hc : CalleeFrame W) (hclean : CleanCode W pc fnAddr args d) :
+    (callFnRaw W pc fnAddr args d).2.t.pages = d.t.pages :=
+  (C16_state_restored W d pc fnAddr args hs hc hclean).2.2.1
 
 /-- … and is FALSE of the code when the GETREGS after the mmap step fails: the call reports an error, registers and
 code are restored (`C16_restore_from_any_failure`), the page stays mapped -/
-def leakWorld : World := ⟨fun k i => k == .getregs && i == 1, 8192, id⟩
+def leakWorld : World := { fails := fun k i => k == .getregs && i == 1, mmapRes := 8192, callee := id }
 theorem C16_no_leak_counterexample : ¬ C16_no_leak_full := by
   intro h
   have := h leakWorld wDbg 100 500 [] (fun _ => by simp [wDbg]) rfl (by decide) ⟨fun _ => rfl, fun _ => rfl, fun _ => rfl⟩
@@ -368,13 +375,36 @@ def C16_breakpoints_reenabled_full : Prop :=
 
 /-- FALSE of the code: the POKE of the second `disable` fails, `with_disabled_brkpts` returns early and the first
 breakpoint stays disabled -/
-def bpWorld : World := ⟨fun k i => k == .poke && i == 1, 8192, id⟩
+def bpWorld : World := { fails := fun k i => k == .poke && i == 1, mmapRes := 8192, callee := id }
 def bpDbg : Dbg := { t := { regs := wRegs, mem := fun a => if a = 100 ∨ a = 200 then 0xCC else 0 },
                      bps := [{ addr := 100, saved := 0x55 }, { addr := 200, saved := 0x48 }] }
 theorem C16_breakpoints_reenabled_counterexample : ¬ C16_breakpoints_reenabled_full := by
   intro h
   have := h bpWorld bpDbg 100 [100, 200] [] (by decide)
   revert this
+  decide
+
+/-- the full statement about the code the callee runs on: at the callee's first instruction every byte of code is the
+original one -/
+def C16_callee_runs_original_code_full : Prop :=
+  ∀ (W : World) (pc fnAddr : Nat) (args : List Nat) (t0 : Tracee) (a : Nat),
+    inPage W.mmapRes a = false → ¬ (t0.regs Rsp - 8 ≤ a ∧ a < t0.regs Rsp - 8 + 8) →
+    (entryT W pc fnAddr args t0).mem a = t0.mem a
+
+/-- FALSE of the code: the `jmp *%rax` patch is still at the stop pc while the callee runs (the text is only restored
+after the call); a callee that passes through the stop location — `call f` while stopped inside f, or inside anything
+f calls — executes `jmp *%rax` instead of the program's instruction -/
+theorem C16_callee_runs_original_code_counterexample : ¬ C16_callee_runs_original_code_full := by
+  intro h
+  have := h (noFaults 8192 id) 100 500 [] wDbg.t 100 (by decide) (by decide)
+  revert this
+  decide
+
+/-- and then the debugger (built with debug assertions) panics in the middle of the call, state not restored: the model's
+`contOp` on a world whose callee passes through the stop pc -/
+def reentrantWorld : World := { fails := fun _ _ => false, mmapRes := 8192, callee := id, reach := [100], orig := fun _ => 0 }
+theorem C16_reentrant_call_witness :
+    (callFnRaw reentrantWorld 100 100 [] wDbg).1 = .panic ∧ (callFnRaw reentrantWorld 100 100 [] wDbg).2.t.pages = [8192] := by
   decide
 
 end BsVerif.Call
